@@ -6,7 +6,7 @@ import ast
 from ..canon import min_size
 from ..framing import FRAMING
 from ..layout import flatten_items, structure
-from ..linform import Lin, enclosing_handlers, enclosing_ifs, guard_deficit, lin
+from ..linform import Lin, enclosing_handlers, enclosing_ifs, guard_deficit, lin, single_defs
 from ..model import ClassInfo
 from ..trace import Op, Raise, Try, walk
 from ..values import ClassV, FieldV, Sym, show
@@ -93,12 +93,13 @@ def check(ctx, report):
                 guard = node.test
                 break
         consts = class_consts(model, f)
-        want = lin(payload, consts)
+        defs = single_defs(f.node)
+        want = lin(payload, consts, defs)
         key = '%s@NotEnoughData(%s)' % (cons, ast.unparse(payload))
         if guard is None:
             report.add('C04.R1', key, 'no enclosing guard establishes that data is missing')
             continue
-        gd = guard_deficit(guard, consts)
+        gd = guard_deficit(guard, consts, defs)
         if gd is None or want is None:
             report.add('C04.R1', key, 'guard `%s` / count `%s` are not of the form available < needed / needed - available' % (
                 ast.unparse(guard), ast.unparse(payload)))
